@@ -1,13 +1,14 @@
 (* C19 — AwkwardForth: the property theorems.  Statements only; every proof is `exact <lemma of Proofs_C19>`.
-   `fixed = true` is the model of the patched single-step path (see Forth.v, single_tail / exec_exit);
-   `fixed = false` is the pinned tree. *)
+   `fixed = true` is the single-step path of the CURRENT code (/repo since commit a6624ec; see Forth.v, single_tail /
+   exec_exit) — the property theorems are stated for it; `fixed = false` is the tree before that fix, kept for the
+   `_refuted` theorems (history). *)
 From Coq Require Import ZArith Bool List.
 From AwkForth Require Import Forth Proofs_C19.
 Import ListNotations.
 Open Scope Z_scope.
 
 (* (a) running to completion (resume through pauses, `complete`) = iterating guarded single steps from the same
-   state; the final state is one from which nothing continues, so extra steps do not change it. PATCHED stepping. *)
+   state; the final state is one from which nothing continues, so extra steps do not change it. *)
 Theorem run_is_iterated_step : forall p e n f m mf,
   complete n f true p e m = Ok mf ->
   can_go mf = false /\ exists k, forall k', iter_step true p e (k + k') m = Ok mf.
@@ -15,20 +16,20 @@ Proof. exact run_is_iterated_step_stable_proof. Qed.
 Print Assumptions run_is_iterated_step.
 
 (* (a) any split of an execution into (guarded) step / resume segments ends in the same final outcome
-   (final state, or the same undefined-behaviour fault).  PATCHED stepping. *)
+   (final state, or the same undefined-behaviour fault). *)
 Theorem pause_resume_compose : forall p e segs m m1 r, r <> OutOfFuel ->
   apply_segs true p e segs m = Ok m1 ->
   ((exists n f, complete n f true p e m = r) <-> (exists n f, complete n f true p e m1 = r)).
 Proof. exact pause_resume_compose_proof. Qed.
 Print Assumptions pause_resume_compose.
 
-(* run / resume / call (single_step = false) do not depend on the patch *)
+(* run / resume / call (single_step = false) were not affected by the fix *)
 Theorem run_mode_unpatched : forall f fixed p e t m,
   internal_run f fixed false p e t m = internal_run f true false p e t m.
 Proof. exact run_mode_unpatched_proof. Qed.
 Print Assumptions run_mode_unpatched.
 
-(* (a) REFUTED on the pinned tree: `3 0 do i loop` with a 4-cell stack — one call ends with 0 1 2 and no error,
+(* HISTORY — (a) was REFUTED before the fix (fixed = false): `3 0 do i loop` with a 4-cell stack — one call ends with 0 1 2 and no error,
    13 single steps end in stack_overflow with 0 0 0 0 (the loop counter never advances), and nothing continues
    from there. *)
 Theorem run_is_iterated_step_refuted :
@@ -39,7 +40,7 @@ Theorem run_is_iterated_step_refuted :
 Proof. exact run_is_iterated_step_refuted_proof. Qed.
 Print Assumptions run_is_iterated_step_refuted.
 
-(* (a) REFUTED on the pinned tree, second defect: `: f 10 -1 if exit then 20 ; f` — one call leaves 10,
+(* HISTORY — (a) REFUTED before the fix, second defect: `: f 10 -1 if exit then 20 ; f` — one call leaves 10,
    single-stepping leaves 10 20 (`exit` does not leave the word when it is single-stepped). *)
 Theorem step_exit_refuted :
   exists p m0 mf ms k,
@@ -49,7 +50,7 @@ Theorem step_exit_refuted :
 Proof. exact step_exit_refuted_proof. Qed.
 Print Assumptions step_exit_refuted.
 
-(* (a) on the PINNED tree the statement holds under the precise side condition that no step boundary falls at the end
+(* HISTORY — before the fix the statement held under the precise side condition that no step boundary falls at the end
    of a do-loop body (or would pop at the target depth) and no `exit` is single-stepped: `clean_run k p e m` checks,
    along the trajectory, `step_clean` = the instruction executed by the step is not `exit` and, after it,
    `end_of_step_plain` (the finished segment that single-stepping pops eagerly is not a do-loop body). *)
@@ -59,7 +60,7 @@ Theorem run_is_iterated_step_pinned_partial : forall p e n f m mf,
 Proof. exact run_is_iterated_step_pinned_partial_proof. Qed.
 Print Assumptions run_is_iterated_step_pinned_partial.
 
-(* (b) step() is total on every state of every program, patched or not: it never runs out of its own fuel
+(* (b) step() is total on every state of every program (before and after the fix): it never runs out of its own fuel
    (the outcome is a new state, possibly with an error code, or an identified undefined behaviour of the C++) *)
 Theorem step_total : forall fixed p e m, api_step fixed p e m <> OutOfFuel.
 Proof. exact step_total_proof. Qed.
